@@ -613,4 +613,228 @@ theorem holonomyAdj_refines (P : FlagFacesIn) (rot : Nat → Rat) (es : List REd
     rw [List.foldl_map]; rfl
   rw [h1, List.Perm.foldl_eq' hperm (fun x _ y _ z => by ring) (P.defect v), foldl_incident]
 
+/-! ## round 6: operator assembly -/
+theorem cadd_assoc' (x y z : Cpx) : cadd (cadd x y) z = cadd x (cadd y z) := by
+  unfold cadd; ext <;> simp <;> ring
+theorem cadd_czero' (x : Cpx) : cadd x czero = x := by unfold cadd czero; ext <;> simp
+theorem czero_cadd' (x : Cpx) : cadd czero x = x := by unfold cadd czero; ext <;> simp
+
+theorem tripCoeff_append (l1 l2 : List (Nat × Nat × Cpx)) (a b : Nat) :
+    tripCoeff (l1 ++ l2) a b = cadd (tripCoeff l1 a b) (tripCoeff l2 a b) := by
+  induction l1 with
+  | nil => simp [tripCoeff, czero_cadd']
+  | cons t ts ih =>
+    have h : tripCoeff (t :: ts ++ l2) a b = cadd (if a = t.1 ∧ b = t.2.1 then t.2.2 else czero) (tripCoeff (ts ++ l2) a b) := rfl
+    have h' : tripCoeff (t :: ts) a b = cadd (if a = t.1 ∧ b = t.2.1 then t.2.2 else czero) (tripCoeff ts a b) := rfl
+    rw [h, h', ih, cadd_assoc']
+
+theorem four_terms (w x y z : Cpx) : cadd w (cadd x (cadd y (cadd z czero))) = cadd (cadd w x) (cadd y z) := by
+  unfold cadd czero; ext <;> simp <;> ring
+
+theorem tripCoeff_trip4 (e : Entry) (a b : Nat) : tripCoeff (trip4 e) a b = contrib e a b := by
+  unfold trip4 contrib
+  show cadd _ (cadd _ (cadd _ (cadd _ czero))) = _
+  exact four_terms _ _ _ _
+
+theorem tripCoeff_entries : ∀ (es : List Entry) (a b : Nat), tripCoeff (es.flatMap trip4) a b = coeff es a b
+  | [], _, _ => rfl
+  | e :: es, a, b => by
+    rw [List.flatMap_cons, tripCoeff_append, tripCoeff_trip4, tripCoeff_entries es a b]
+    rfl
+
+theorem foldl_step_append {α β : Type} (f : List β → α → List β) (g : α → List β) (h : ∀ acc x, f acc x = acc ++ g x) :
+    ∀ (l : List α) (acc : List β), l.foldl f acc = acc ++ l.flatMap g
+  | [], acc => by simp
+  | x :: xs, acc => by
+    simp only [List.foldl_cons, List.flatMap_cons]
+    rw [h, foldl_step_append f g h xs, List.append_assoc]
+
+theorem laplacianTriplets_bridge (U : Rat → Cpx) (order : Nat) (cotan : Bool) (faces : List (Nat × Nat × Nat × Nat)) (cot tr : Nat → Nat → Rat) :
+    C18S.laplacianTriplets U order cotan true faces cot tr = (lapEntriesM U order cotan faces cot tr).flatMap trip4 := by
+  unfold C18S.laplacianTriplets lapEntriesM
+  rw [List.flatMap_assoc] 
+  have := foldl_step_append
+    (fun (acc : List (Nat × Nat × Cpx)) (it : Nat × Nat × Nat × Nat) =>
+      [(it.2.1, it.2.2.1, (if cotan then cot it.1 it.2.2.2 / ((2 : Rat) / 1) else ((1 : Rat) / 2))),
+       (it.2.2.1, it.2.2.2, (if cotan then cot it.1 it.2.1 / ((2 : Rat) / 1) else ((1 : Rat) / 2))),
+       (it.2.2.2, it.2.1, (if cotan then cot it.1 it.2.2.1 / ((2 : Rat) / 1) else ((1 : Rat) / 2)))].foldl (fun acc h =>
+          if true = true then
+            (acc ++ [(h.1, h.1, ofReal h.2.2)] ++ [(h.2.1, h.2.1, ofReal h.2.2)]
+              ++ [(h.1, h.2.1, cneg (csmul h.2.2 (U ((order : Rat) * (((tr h.1 h.2.1) - (tr h.2.1 h.1)) - ((1 : Rat) / 2))))))]
+              ++ [(h.2.1, h.1, cneg (csmul h.2.2 (U ((order : Rat) * (((tr h.2.1 h.1) - (tr h.1 h.2.1)) - ((1 : Rat) / 2))))))])
+          else
+            (acc ++ [(h.1, h.1, ofReal h.2.2)] ++ [(h.2.1, h.2.1, ofReal h.2.2)] ++ [(h.1, h.2.1, cneg (ofReal h.2.2))] ++ [(h.2.1, h.1, cneg (ofReal h.2.2))])) acc)
+    (fun it => (lapFaceEntriesM U order cotan cot tr it).flatMap trip4)
+    (by
+      intro acc it
+      simp only [List.foldl_cons, List.foldl_nil, if_true, lapFaceEntriesM, List.flatMap_cons, List.flatMap_nil, trip4, entryVert, lapPhase,
+        List.append_assoc, List.cons_append, List.nil_append, List.append_nil]
+      norm_num)
+    faces []
+  simpa using this
+
+theorem conj_neg_smul (v : Rat) (z : Cpx) : cconj (cneg (csmul v z)) = cneg (csmul v (cconj z)) := by
+  unfold cconj cneg csmul; ext <;> simp
+
+theorem lapPhase_opposite (order : Nat) (tr : Nat → Nat → Rat) (i j : Nat) :
+    lapPhase order tr j i = -(lapPhase order tr i j) + ((-(order : Int) : Int) : Rat) := by
+  unfold lapPhase; push_cast; ring
+
+theorem lapFaceEntries_herm (U : Rat → Cpx) (hU : UnitContract U) (order : Nat) (cotan : Bool) (cot tr : Nat → Nat → Rat) (it : Nat × Nat × Nat × Nat) :
+    ∀ e ∈ lapFaceEntriesM U order cotan cot tr it, e.oji = cconj e.oij := by
+  intro e he
+  unfold lapFaceEntriesM at he
+  simp only [List.mem_cons, List.mem_nil_iff, or_false] at he
+  rcases he with rfl | rfl | rfl <;>
+  · unfold entryVert
+    simp only []
+    rw [conj_neg_smul, lapPhase_opposite, hU.period, hU.conj]
+
+theorem rowGram_two (w : Rat) (T1 T2 : Nat) (t : Cpx) (a b : Nat) :
+    rowGram w [(T1, cneg cone), (T2, t)] a b = contrib (entryFace T1 T2 w t) a b := by
+  unfold rowGram contrib entryFace
+  simp only [List.flatMap_cons, List.flatMap_nil, List.map_cons, List.map_nil, List.append_nil, List.cons_append, List.nil_append, csum]
+  have e11 : csmul w (cmul (cconj (cneg cone)) (cneg cone)) = ofReal w := by
+    unfold csmul cmul cconj cneg cone ofReal; ext <;> simp
+  have e12 : csmul w (cmul (cconj (cneg cone)) t) = cneg (csmul w t) := by
+    unfold csmul cmul cconj cneg cone; ext <;> simp
+  have e21 : csmul w (cmul (cconj t) (cneg cone)) = cneg (csmul w (cconj t)) := by
+    unfold csmul cmul cconj cneg cone; ext <;> simp
+  have e22 : csmul w (cmul (cconj t) t) = ofReal (w * normSq t) := by
+    unfold csmul cmul cconj ofReal normSq
+    apply Prod.ext
+    · show w * (t.1 * t.1 - -t.2 * t.2) = w * (t.1 * t.1 + t.2 * t.2); ring
+    · show w * (t.1 * t.2 + -t.2 * t.1) = 0; ring
+  rw [e11, e12, e21, e22]
+  generalize (if a = T1 ∧ b = T1 then ofReal w else czero) = x1
+  generalize (if a = T1 ∧ b = T2 then cneg (csmul w t) else czero) = x2
+  generalize (if a = T2 ∧ b = T1 then cneg (csmul w (cconj t)) else czero) = x3
+  generalize (if a = T2 ∧ b = T2 then ofReal (w * normSq t) else czero) = x4
+  unfold cadd czero; ext <;> simp <;> ring
+
+theorem nablaRows_bridge (U : Rat → Cpx) (order : Nat) (edges : List (Nat × Option Nat × Option Nat)) (tr : Nat → Nat → Rat) :
+    C18S.nablaRows U order true edges tr = edges.filterMap (fun it => match it.2.1, it.2.2 with
+      | some T1, some T2 => some (it.1, [(T1, cneg cone), (T2, U ((order : Rat) * tr T1 T2))])
+      | _, _ => none) := by
+  unfold C18S.nablaRows
+  have := foldl_step_filterMap
+    (fun (acc : List (Nat × List (Nat × Cpx))) (it : Nat × Option Nat × Option Nat) =>
+      match it.2.1, it.2.2 with
+      | some v_T1, some v_T2 =>
+        if true = true then acc ++ [(it.1, [(v_T1, cneg cone), (v_T2, U ((order : Rat) * (tr v_T1 v_T2)))])] else acc ++ [(it.1, [(v_T1, cneg cone), (v_T2, cone)])]
+      | _, _ => acc)
+    (fun it => match it.2.1, it.2.2 with
+      | some T1, some T2 => some (it.1, [(T1, cneg cone), (T2, U ((order : Rat) * tr T1 T2))])
+      | _, _ => none)
+    (by
+      intro acc it
+      rcases it with ⟨i, t1, t2⟩
+      cases t1 <;> cases t2 <;> rfl)
+    edges []
+  simp only [List.nil_append] at this
+  exact this
+
+theorem gramCoeff_rows (U : Rat → Cpx) (order : Nat) (weight : Nat → Rat) (tr : Nat → Nat → Rat) :
+    ∀ (edges : List (Nat × Option Nat × Option Nat)) (a b : Nat),
+      gramCoeff weight (edges.filterMap (fun it => match it.2.1, it.2.2 with
+        | some T1, some T2 => some (it.1, [(T1, cneg cone), (T2, U ((order : Rat) * tr T1 T2))])
+        | _, _ => none)) a b = coeff (triEntriesM U order weight edges tr) a b
+  | [], _, _ => rfl
+  | it :: es, a, b => by
+    rcases it with ⟨i, t1, t2⟩
+    have ih := gramCoeff_rows U order weight tr es a b
+    unfold triEntriesM at ih ⊢
+    cases t1 <;> cases t2 <;> simp only [List.filterMap_cons] <;> try exact ih
+    rename_i T1 T2
+    show cadd (rowGram (weight i) [(T1, cneg cone), (T2, U ((order : Rat) * tr T1 T2))] a b) _ = cadd (contrib _ a b) _
+    rw [rowGram_two]
+    congr 1
+
+/-! ## round 6: connection on faces -/
+theorem connFacesTriple_feature (isFeat : Nat → Nat → Bool) (it : Nat × Nat × Nat × Nat)
+    (h : isFeat it.2.1 it.2.2.1 = true ∨ isFeat it.2.2.1 it.2.2.2 = true ∨ isFeat it.2.2.2 it.2.1 = true) :
+    isFeat (C18S.connFacesTriple isFeat it).1 (C18S.connFacesTriple isFeat it).2.1 = true := by
+  unfold C18S.connFacesTriple
+  cases h1 : isFeat it.2.1 it.2.2.1 <;> cases h2 : isFeat it.2.2.1 it.2.2.2 <;> cases h3 : isFeat it.2.2.2 it.2.1 <;>
+    simp [h1, h2, h3, rotl3, argmaxB] at h ⊢ <;> assumption
+
+theorem connFacesTransport_bridge (interior : List (Nat × Nat × Nat)) (ang : Nat → Nat → Rat) :
+    C18S.connFacesTransport interior ang
+      = dictOfM (interior.map (fun it => ({ a := it.2.1, b := it.2.2, r := ang it.1 it.2.1 - ang it.1 it.2.2 } : FFV.RE))) := by
+  unfold C18S.connFacesTransport dictOfM
+  rw [← foldl_map' (fun (d : Dict) (e : FFV.RE) => dset (dset d e.a e.b e.r) e.b e.a (-e.r))
+    (fun (it : Nat × Nat × Nat) => ({ a := it.2.1, b := it.2.2, r := ang it.1 it.2.1 - ang it.1 it.2.2 } : FFV.RE))]
+  congr 1
+  funext d it
+  have : ang it.1 it.2.2 - ang it.1 it.2.1 = -(ang it.1 it.2.1 - ang it.1 it.2.2) := by ring
+  simp only [this]
+
+theorem dirContrib_antisymm (e : FFV.RE) (hne : e.a ≠ e.b) (u v : Nat) : FFV.dirContrib e v u = -FFV.dirContrib e u v := by
+  unfold FFV.dirContrib
+  by_cases h1 : e.a = u ∧ e.b = v
+  · obtain ⟨rfl, rfl⟩ := h1
+    have : ¬ (e.a = e.b ∧ e.b = e.a) := fun h => hne h.1
+    simp [this]
+  · by_cases h2 : e.b = u ∧ e.a = v
+    · obtain ⟨rfl, rfl⟩ := h2
+      have : ¬ (e.a = e.b ∧ e.b = e.a) := fun h => hne h.1
+      simp [this]
+    · have h3 : ¬ (e.a = v ∧ e.b = u) := fun h => h2 ⟨h.2, h.1⟩
+      have h4 : ¬ (e.b = v ∧ e.a = u) := fun h => h1 ⟨h.2, h.1⟩
+      simp [h1, h2, h3, h4]
+
+theorem rotD_antisymm : ∀ (es : List FFV.RE), (∀ e ∈ es, e.a ≠ e.b) → ∀ u v, FFV.rotD es v u = -FFV.rotD es u v
+  | [], _, _, _ => by simp [FFV.rotD]
+  | e :: es, h, u, v => by
+    have h1 : FFV.rotD (e :: es) v u = FFV.dirContrib e v u + FFV.rotD es v u := rfl
+    have h2 : FFV.rotD (e :: es) u v = FFV.dirContrib e u v + FFV.rotD es u v := rfl
+    rw [h1, h2, dirContrib_antisymm e (h e (by simp)), rotD_antisymm es (fun x hx => h x (List.mem_cons_of_mem _ hx))]
+    ring
+
+/-! ## round 6: connection on vertices -/
+def ringStepI (total : Nat → Rat) (ca : Nat → Nat → Option Rat) (u : Nat) (st : Dict × Rat) (v : Nat) : Dict × Rat :=
+  (dset st.1 u v (((st.2 * (2 : Rat)) * ((1 : Rat) / 2)) / total u), st.2 + (ca u v).getD 0)
+
+theorem ringInterior_eq (total : Nat → Rat) (ca : Nat → Nat → Option Rat) (u : Nat) (ring : List Nat) (d : Dict) (a : Rat) :
+    C18S.connVertsRingInterior total ca u ring d a = (ring.foldl (ringStepI total ca u) (d, a)).1 := rfl
+
+theorem ringStepI_keep (total : Nat → Rat) (ca : Nat → Nat → Option Rat) (u w : Nat) : ∀ (ring : List Nat) (st : Dict × Rat), w ∉ ring →
+    (ring.foldl (ringStepI total ca u) st).1 u w = st.1 u w
+  | [], _, _ => rfl
+  | v :: rest, st, h => by
+    simp only [List.foldl_cons]
+    rw [ringStepI_keep total ca u w rest _ (fun hm => h (List.mem_cons_of_mem _ hm))]
+    have hne : w ≠ v := fun e => h (by simp [e])
+    unfold ringStepI dset
+    simp [hne]
+
+theorem ringInterior_first (total : Nat → Rat) (ca : Nat → Nat → Option Rat) (u v0 : Nat) (rest : List Nat) (d : Dict) (a : Rat) (h : v0 ∉ rest) :
+    C18S.connVertsRingInterior total ca u (v0 :: rest) d a u v0 = ((a * 2) * (1 / 2)) / total u := by
+  rw [ringInterior_eq]
+  simp only [List.foldl_cons]
+  rw [ringStepI_keep total ca u v0 rest _ h]
+  unfold ringStepI dset
+  simp
+
+theorem ringInterior_second (total : Nat → Rat) (ca : Nat → Nat → Option Rat) (u v0 v1 : Nat) (rest : List Nat) (d : Dict) (a : Rat)
+    (h1 : v1 ∉ rest) :
+    C18S.connVertsRingInterior total ca u (v0 :: v1 :: rest) d a u v1 = (((a + (ca u v0).getD 0) * 2) * (1 / 2)) / total u := by
+  rw [ringInterior_eq]
+  simp only [List.foldl_cons]
+  rw [ringStepI_keep total ca u v1 rest _ h1]
+  unfold ringStepI dset
+  simp
+
+/-! ## round 6: export_as_mesh -/
+theorem exportEdges_mem (order n : Nat) (g : Nat → List (Nat × Nat)) (per : Nat)
+    (hg : ∀ i, ∀ e ∈ g i, e.1 < per * (i + 1) ∧ e.2 < per * (i + 1)) :
+    ∀ e ∈ (List.range n).foldl (fun acc i => acc ++ g i) [], e.1 < per * n ∧ e.2 < per * n := by
+  intro e he
+  rw [foldl_step_append (fun acc i => acc ++ g i) g (fun _ _ => rfl)] at he
+  simp only [List.nil_append, List.mem_flatMap, List.mem_range] at he
+  obtain ⟨i, hi, hm⟩ := he
+  have := hg i e hm
+  have hle : per * (i + 1) ≤ per * n := Nat.mul_le_mul_left per hi
+  exact ⟨Nat.lt_of_lt_of_le this.1 hle, Nat.lt_of_lt_of_le this.2 hle⟩
+
 end Mouette.Lemmas.C18S
